@@ -198,6 +198,17 @@ class Driver:
             "attributes": {"step_count": self.step_count},
         }
 
+    def todict(self) -> dict[str, Any]:
+        """
+        Alias of `to_dict` used by ASE's JSON writer (and therefore by the restart observer).
+
+        Returns
+        -------
+        dict[str, Any]
+            A dictionary representation of the `Driver` object.
+        """
+        return self.to_dict()
+
     @property
     def default_logger(self) -> Logger | None:
         """
